@@ -1189,6 +1189,9 @@ struct json_object *json_tokener_parse_ex(struct json_tokener *tok, const char *
 		case json_tokener_state_array_add:
 			if (json_object_array_add(current, obj) != 0)
 			{
+				/* the completed element was never attached: release it */
+				json_object_put(obj);
+				obj = NULL;
 				tok->err = json_tokener_error_memory;
 				goto out;
 			}
@@ -1315,6 +1318,9 @@ struct json_object *json_tokener_parse_ex(struct json_tokener *tok, const char *
 		case json_tokener_state_object_value_add:
 			if (json_object_object_add(current, obj_field_name, obj) != 0)
 			{
+				/* the completed member value was never attached: release it */
+				json_object_put(obj);
+				obj = NULL;
 				tok->err = json_tokener_error_memory;
 				goto out;
 			}
